@@ -18,7 +18,7 @@ func parallelOwners() {
 	c := caseT{Site: "owners", Order: "all"}
 	rec.Begin("owners", c)
 	defer rec.End("owners")
-	orders := []string{"int", "rev", "str", "mod", "ptr", "iface", "pct", "f64", "ibytes"}
+	orders := []string{"int", "rev", "str", "mod", "ptr", "iface", "pct", "f64", "ibytes", "reent"}
 	msgs := make([]string, owners)
 	cls := make([]string, owners)
 	var wg sync.WaitGroup
